@@ -11,3 +11,7 @@ pub use builder::Builder;
 pub use error::Error;
 pub(crate) use reconcile::reconcile;
 pub(crate) use join_pool::JoinPool;
+#[cfg(purr_verif)]
+pub use reconcile::reconcile as verif_reconcile;
+#[cfg(purr_verif)]
+pub use join_pool::JoinPool as VerifJoinPool;
